@@ -71,6 +71,22 @@ def directed_chains():
         for cmd, params in (("CvtToFuzzyMeanToMid", {"IgnoreZeros": False, "FuzzyValues": [-1, -0.5, 0, 0.5, 1]}), ("CvtToFuzzyMeanToMid", {"IgnoreZeros": True, "FuzzyValues": [1, 0.3, 0, -0.3, -1]}),
                             ("CvtToFuzzyZScore", {}), ("CvtToFuzzyCurveZScore", {"ZScoreValues": [-1, 0.3, 1], "FuzzyValues": [-1, 0.1, 1]})):
             cases.append(Case(cmd, params, [numpy.ma.array(numpy.array(data))]))
+    # fields without a missing cell, which the stream also hands over as plain ndarrays (a plug-in command's result): parameters that push the raw
+    # result out of the range, every producer that combines fuzzy fields or converts raw ones
+    u1 = numpy.ma.array([1.0, -1.0, 0.5, -0.25, 1.0, -1.0])
+    u2 = numpy.ma.array([-1.0, 1.0, 0.75, 1.0, 1.0, -1.0])
+    r1 = numpy.ma.array([0.0, 1.0, 2.0, 5.0, -3.0, 10.0])
+    plain_cases = [Case("FuzzyWeightedUnion", {"Weights": w}, [a.copy() for a in ins]) for ins, w in (([u1, u2], [3, -1]), ([u2, u1], [2, -1.5]), ([u1, u2, u1], [-1, -1, 3]), ([u1], [-1]), ([u1, u2], [0.1, 0.2]))]
+    plain_cases += [Case("FuzzyUnion", {}, [u1.copy(), u2.copy()]), Case("FuzzyOr", {}, [u1.copy() * 2]), Case("FuzzyAnd", {}, [u2.copy() * 3, u1.copy()]), Case("FuzzyNot", {}, [u1.copy() * 2]),
+                    Case("FuzzyXOr", {}, [u1.copy(), u2.copy()]), Case("FuzzySelectedUnion", {"TruestOrFalsest": "Falsest", "NumberToConsider": 2}, [u1.copy() * 2, u2.copy(), u1.copy()]),
+                    Case("CvtToFuzzy", {"TrueThreshold": 2, "FalseThreshold": 1}, [r1.copy()]), Case("CvtToFuzzy", {}, [r1.copy()]),
+                    Case("CvtToFuzzyCurve", {"RawValues": [0, 5], "FuzzyValues": [-3, 3]}, [r1.copy()]), Case("CvtToFuzzyCat", {"RawValues": [1, 5], "FuzzyValues": [5, -5], "DefaultFuzzyValue": 2}, [r1.copy()]),
+                    Case("CvtToFuzzyZScore", {"TrueThresholdZScore": 0.5, "FalseThresholdZScore": -0.5}, [r1.copy()]),
+                    Case("CvtToFuzzyCurveZScore", {"ZScoreValues": [-1, 1], "FuzzyValues": [-4, 4]}, [r1.copy()]),
+                    Case("CvtToFuzzyMeanToMid", {"IgnoreZeros": False, "FuzzyValues": [-2, -1, 0, 1, 2]}, [r1.copy()]), Case("CvtToBinary", {"Threshold": 2, "Direction": "LowToHigh"}, [r1.copy()])]
+    for c_ in plain_cases:
+        c_.always_plain = True
+    cases += plain_cases
     for f in (f1, f2, f3, f4):
         cases.append(Case("FuzzyNot", {}, [f]))
         cases.append(Case("FuzzyUnion", {}, [f, f2]))
